@@ -1,7 +1,7 @@
 #!/venv/bin/python
 """Mutation audit of the checkers (a development tool, not part of any registered check).
 
-  tools/mutate.py <Cnn> [--max N] [--tests]      generate AST mutants of the functions the check of Cnn summarises, run the check on
+  tools/mutate.py <Cnn> [--max N] [--tests] [--round2]      generate AST mutants of the functions the check of Cnn summarises, run the check on
                                                  each (in-memory overlay), list the SURVIVORS (check exits 0); with --tests the
                                                  survivors are also run against the unedited test-suite in scratch copies under /tmp
                                                  (removed afterwards) -- a survivor that passes the suite is a candidate hole of the
@@ -9,6 +9,10 @@
 
 Mutation operators: comparison swaps, arithmetic swaps, boolean negation of `if` tests, swapped first two call arguments, constant
 tweaks (0 <-> 1, n -> n + 1), swapped constant subscripts, deleted expression statements / augmented assignments, and/or swaps.
+--round2 uses a second operator set instead: flipped comparisons (< -> >), sibling attributes / functions / string options (start_time <->
+end_time, min <-> max, floor <-> ceil, 'right' <-> 'left', append <-> extend ...), a dropped or swapped keyword argument, a dropped
+operand of and / or, continue -> pass, a dropped unary operator, an opened slice bound, swapped branches of a conditional expression,
+a dropped comprehension filter.
 """
 import ast
 import copy
@@ -28,8 +32,16 @@ from sa.index import AnalysisError, Index  # noqa: E402
 from sa.report import Ctx, load_known, match_known  # noqa: E402
 
 ROOT = "/repo"
+ROUND2 = "--round2" in sys.argv
 CMP = {ast.Lt: ast.LtE, ast.LtE: ast.Lt, ast.Gt: ast.GtE, ast.GtE: ast.Gt, ast.Eq: ast.NotEq, ast.NotEq: ast.Eq, ast.Is: ast.IsNot, ast.IsNot: ast.Is,
        ast.In: ast.NotIn, ast.NotIn: ast.In}
+FLIP = {ast.Lt: ast.Gt, ast.Gt: ast.Lt, ast.LtE: ast.GtE, ast.GtE: ast.LtE}
+SIB_ATTR = {"start_time": "end_time", "end_time": "start_time", "low_freq": "high_freq", "high_freq": "low_freq", "source": "target", "target": "source",
+            "annotations": "predictions", "predictions": "annotations", "min": "max", "max": "min", "append": "extend", "extend": "append",
+            "floor": "ceil", "ceil": "floor", "start": "stop", "stop": "start", "onset_s": "offset_s", "offset_s": "onset_s", "first": "last",
+            "time": "frequency", "frequency": "time", "argmax": "argmin", "any": "all", "all": "any", "sound_events": "sequences"}
+SIB_NAME = {"min": "max", "max": "min", "floor": "ceil", "ceil": "floor", "any": "all", "all": "any", "sorted": "list", "int": "round", "round": "int"}
+SIB_STR = {"right": "left", "left": "right", "start": "end", "end": "start", "after": "before", "before": "after"}
 BIN = {ast.Add: ast.Sub, ast.Sub: ast.Add, ast.Mult: ast.Div, ast.Div: ast.Mult, ast.FloorDiv: ast.Div, ast.Mod: ast.FloorDiv}
 
 
@@ -55,7 +67,9 @@ def mutants_of(src, wanted):
         for node in ast.walk(fn):
             if isinstance(node, ast.Expr) and isinstance(node.value, ast.Constant) and isinstance(node.value.value, str):
                 continue
-            if isinstance(node, ast.Compare) and len(node.ops) == 1 and type(node.ops[0]) in CMP:
+            if ROUND2:
+                pass
+            elif isinstance(node, ast.Compare) and len(node.ops) == 1 and type(node.ops[0]) in CMP:
                 points.append((fn.name, node, "cmp"))
             elif isinstance(node, ast.BinOp) and type(node.op) in BIN:
                 points.append((fn.name, node, "bin"))
@@ -69,6 +83,38 @@ def mutants_of(src, wanted):
                 points.append((fn.name, node, "boolop"))
             elif isinstance(node, ast.Subscript) and isinstance(node.slice, ast.Constant) and isinstance(node.slice.value, int):
                 points.append((fn.name, node, "index"))
+            if ROUND2:
+                if isinstance(node, ast.Compare) and len(node.ops) == 1 and type(node.ops[0]) in FLIP:
+                    points.append((fn.name, node, "flip"))
+                if isinstance(node, ast.Attribute) and node.attr in SIB_ATTR:
+                    points.append((fn.name, node, "sibattr"))
+                if isinstance(node, ast.Name) and node.id in SIB_NAME and isinstance(node.ctx, ast.Load):
+                    points.append((fn.name, node, "sibname"))
+                if isinstance(node, ast.Constant) and isinstance(node.value, str) and node.value in SIB_STR:
+                    points.append((fn.name, node, "sibstr"))
+                if isinstance(node, ast.Call) and node.keywords:
+                    for i_, kw_ in enumerate(node.keywords):
+                        if kw_.arg is not None:
+                            points.append((fn.name, node, ("dropkw", i_)))
+                    named = [i_ for i_, kw_ in enumerate(node.keywords) if kw_.arg is not None]
+                    if len(named) >= 2:
+                        points.append((fn.name, node, ("swapkw", named[0], named[1])))
+                if isinstance(node, ast.BoolOp) and len(node.values) >= 2:
+                    for i_ in range(len(node.values)):
+                        points.append((fn.name, node, ("dropconj", i_)))
+                if isinstance(node, ast.Continue):
+                    points.append((fn.name, node, "continue2pass"))
+                if isinstance(node, ast.UnaryOp) and isinstance(node.op, (ast.Not, ast.USub, ast.Invert)):
+                    points.append((fn.name, node, "dropunary"))
+                if isinstance(node, ast.Slice) and (node.lower is not None or node.upper is not None):
+                    points.append((fn.name, node, "slice"))
+                if isinstance(node, ast.IfExp):
+                    points.append((fn.name, node, "ifexp"))
+                if isinstance(node, ast.comprehension) and node.ifs:
+                    points.append((fn.name, node, "dropfilter"))
+                if isinstance(node, ast.Return) and node.value is not None and isinstance(node.value, ast.Call) and fn.name != "__init__":
+                    pass
+                continue
             if isinstance(node, (ast.Expr, ast.AugAssign)) and not (isinstance(node, ast.Expr) and isinstance(node.value, ast.Constant)):
                 points.append((fn.name, node, "delete"))
     for k, (fname, node, kind) in enumerate(points):
@@ -107,6 +153,64 @@ def mutants_of(src, wanted):
             v = node.slice.value
             twin.slice = ast.Constant(value={0: 1, 1: 0, 2: 3, 3: 2, -1: 0}.get(v, v + 1))
             desc = f"{ast.unparse(node)[:50]} -> [{twin.slice.value}]"
+        elif kind == "flip":
+            twin.ops = [FLIP[type(twin.ops[0])]()]
+            desc = f"{ast.unparse(node)} -> {ast.unparse(twin)}"
+        elif kind == "sibattr":
+            twin.attr = SIB_ATTR[twin.attr]
+            desc = f"{ast.unparse(node)[:50]} -> .{twin.attr}"
+        elif kind == "sibname":
+            twin.id = SIB_NAME[twin.id]
+            desc = f"{node.id} -> {twin.id}"
+        elif kind == "sibstr":
+            twin.value = SIB_STR[twin.value]
+            desc = f"{node.value!r} -> {twin.value!r}"
+        elif isinstance(kind, tuple) and kind[0] == "dropkw":
+            dropped = twin.keywords.pop(kind[1])
+            desc = f"{ast.unparse(node)[:50]}: keyword {dropped.arg}= dropped"
+        elif isinstance(kind, tuple) and kind[0] == "swapkw":
+            a_, b_ = twin.keywords[kind[1]], twin.keywords[kind[2]]
+            a_.value, b_.value = b_.value, a_.value
+            if ast.unparse(node) == ast.unparse(twin):
+                continue
+            desc = f"{ast.unparse(node)[:50]}: values of {a_.arg}= and {b_.arg}= swapped"
+        elif isinstance(kind, tuple) and kind[0] == "dropconj":
+            dropped = twin.values.pop(kind[1])
+            if len(twin.values) == 1:
+                # replace the BoolOp by its remaining operand
+                for parent in ast.walk(t2):
+                    for field, val in ast.iter_fields(parent):
+                        if val is twin:
+                            setattr(parent, field, twin.values[0])
+                        elif isinstance(val, list) and any(v is twin for v in val):
+                            val[[i for i, v in enumerate(val) if v is twin][0]] = twin.values[0]
+            desc = f"{ast.unparse(node)[:60]}: operand `{ast.unparse(dropped)[:30]}` dropped"
+        elif kind == "continue2pass":
+            for parent in ast.walk(t2):
+                for field, val in ast.iter_fields(parent):
+                    if isinstance(val, list) and any(v is twin for v in val):
+                        val[[i for i, v in enumerate(val) if v is twin][0]] = ast.Pass()
+            desc = "continue -> pass"
+        elif kind == "dropunary":
+            for parent in ast.walk(t2):
+                for field, val in ast.iter_fields(parent):
+                    if val is twin:
+                        setattr(parent, field, twin.operand)
+                    elif isinstance(val, list) and any(v is twin for v in val):
+                        val[[i for i, v in enumerate(val) if v is twin][0]] = twin.operand
+            desc = f"{ast.unparse(node)[:50]}: unary operator dropped"
+        elif kind == "slice":
+            if twin.lower is not None:
+                twin.lower = None
+            else:
+                twin.upper = None
+            desc = f"slice {ast.unparse(node)[:30]} -> {ast.unparse(twin)[:30]}"
+        elif kind == "ifexp":
+            twin.body, twin.orelse = twin.orelse, twin.body
+            desc = f"{ast.unparse(node)[:60]}: branches swapped"
+        elif kind == "dropfilter":
+            twin.ifs = twin.ifs[1:]
+            desc = f"comprehension filter `{ast.unparse(node.ifs[0])[:50]}` dropped"
         elif kind == "delete":
             for parent in ast.walk(t2):
                 for field, val in ast.iter_fields(parent):
@@ -120,7 +224,8 @@ def mutants_of(src, wanted):
             compile(new, "<mutant>", "exec")
         except Exception:  # noqa: BLE001
             continue
-        yield f"{fname}:{getattr(node, 'lineno', 0)} {kind}: {desc}", new
+        kname = kind if isinstance(kind, str) else kind[0]
+        yield f"{fname}:{getattr(node, 'lineno', 0)} {kname}: {desc}", new
 
 
 def run_one(args):
